@@ -359,6 +359,7 @@ func (t *Torrent) PiecesOfFile(fi int) (first, last int) {
 
 type GenOpts struct {
 	MaxPieces   int
+	MinPieces   int  // 0 = 1
 	MaxPieceLen int  // multiple of 16 KiB upper bound
 	AllowPad    bool // padding files
 	AllowOddPL  bool // piece length not a multiple of 16 KiB (hand-built metainfo)
@@ -380,7 +381,7 @@ func RandomLayout(r *simrt.Rand, o GenOpts) Layout {
 	if o.AllowOddPL && r.Chance(0.25) {
 		pl = r.Range(1, o.MaxPieceLen)
 	}
-	np := r.Range(1, o.MaxPieces)
+	np := r.Range(max(1, o.MinPieces), o.MaxPieces)
 	total := int64(pl)*int64(np-1) + int64(r.Range(1, pl))
 	if r.Chance(0.3) {
 		total = int64(pl) * int64(np) // exact multiple
